@@ -690,15 +690,22 @@ pub fn refresh(
 ) -> Result<(), Error> {
     verify(msk, usk)?;
 
-    let usk_id = take(&mut usk.id);
-    let new_id = msk.tsk.refresh_id(rng, usk_id)?;
+    // The refreshed key is computed before modifying the USK so that it is left
+    // untouched upon failure.
+    let new_id = msk.tsk.refresh_id(rng, usk.id.clone())?;
 
-    let usk_rights = take(&mut usk.secrets);
     let new_rights = if keep_old_rights {
-        refresh_coordinate_keys(msk, usk_rights)
+        refresh_coordinate_keys(msk, usk.secrets.clone())
     } else {
-        msk.get_latest_right_sk(usk_rights.into_keys())
-            .collect::<Result<RevisionVec<Right, RightSecretKey>, Error>>()?
+        // Rights that do not belong to the MSK anymore are removed.
+        usk.secrets
+            .iter()
+            .filter_map(|(r, _)| {
+                msk.secrets
+                    .get_latest(r)
+                    .map(|(_, key)| (r.clone(), key.clone()))
+            })
+            .collect::<RevisionVec<Right, RightSecretKey>>()
     };
 
     let signature = sign(msk, &new_id, &new_rights)?;
